@@ -9,65 +9,67 @@ def prop(id, technique, text, note, ref):
 
 TRUST = ("Trusted base: the reference model vf/model.py (written from the documented meaning, imports nothing "
          "from valida), Hypothesis 6.168 as case source (one byte tape per case, decoded by vf/gen.py), CPython 3.12. "
-         "Bounded exploration: documents depth<=3, fan-out<=4, condition trees depth<=3, 64-bit finite numbers. Never proves absence.")
+         "Bounded exploration: documents depth<=4 and fan-out<=4 as a rule (rarely chains of 7-10 and 33-65 levels, containers of 9-300 and 1001-1100 items, one container object at two positions), condition trees depth<=3 (rarely operand lists of 101-130), 64-bit finite numbers. Never proves absence.")
+ACTIVE = (" The caller is active as well (DESIGN.md 9.5, rounds 6-7): it edits its own document in place between calls (vf/props/edits.py: the next answer follows the document, the earlier result object stands), "
+          "edits its own spec structure in place and parses it again (spec.recycled), edits the by-products it was handed, and uses one object at two places of one input.")
 
 prop("C01", "PBT (Hypothesis byte-tape generators) against an independent reference evaluator; exhaustive over the 149 leaf shapes",
      "Exploration: every DSL-reachable leaf shape (kind x pre-processor x callable) is enumerated; arguments of every JSON-like type and list/mapping documents are generated; filter result, partition views and all entry points are compared with an independent reference evaluator in which any undefined comparison means 'not satisfied'. Any escaping exception is a violation.",
-     TRUST, "DESIGN.md 3/C01")
+     TRUST + ACTIVE, "DESIGN.md 3/C01")
 
 prop("C02", "PBT: generated call histories (model-based: program-as-data and a Hypothesis RuleBasedStateMachine over one step interpreter) + one-shot deep trees against reference Boolean algebra; object-graph fingerprints for operand immutability; atheris in the thorough tier",
      "Exploration: histories of build steps (leaf, null, &,|,^, combine-with-null on either side, same/different-operator-then-null family enumerated, spec lists with nesting, operand reuse) are generated; after EVERY step every pool member is re-filtered on probe documents and compared with the reference algebra (null = identity), and the structural fingerprint of every pre-existing member must be unchanged. Deep random trees (depth<=6) via DSL and via spec lists are compared one-shot.",
-     TRUST, "DESIGN.md 3/C02")
+     TRUST + ACTIVE, "DESIGN.md 3/C02")
 prop("C03", "PBT: document-guided path generation against a reference frontier walk; differential over 5 entry points",
      "Exploration: paths mixing primitive/map/list/map-or-list parts with condition trees are drawn by walking the generated document (plus injected misses); the selection (values and concrete paths, order, concrete->node|None, non-concrete->list) is compared with an independent part-by-part walk for all five entry points.",
-     TRUST, "DESIGN.md 3/C03")
+     TRUST + ACTIVE, "DESIGN.md 3/C03")
 prop("C04", "PBT with exhaustive modifier grid per generated (path, document); truthfulness by re-walking reported paths",
      "Exploration: for each generated (document, path) the whole datum x multiplicity x order x return_paths grid is enumerated; reported paths are re-walked on the original document, must be pairwise distinct, and every modifier result is compared with the reference (first/last/single/all, ValueError on several for single, refusal on concrete paths).",
-     TRUST, "DESIGN.md 3/C04")
+     TRUST + ACTIVE, "DESIGN.md 3/C04")
 prop("C05", "PBT against reference rule test (selection x condition tree), raw and wrapped input",
      "Exploration: rules (document-guided path x value-kind condition tree, ill-typed arguments included) are tested on generated documents; is_valid, tested, the failure list (values, true concrete paths, order), num_failures and non-empty reasons are compared with the reference.",
-     TRUST, "DESIGN.md 3/C05")
+     TRUST + ACTIVE, "DESIGN.md 3/C05")
 prop("C06", "PBT with exhaustive permutation of the rule list (<=4 rules: all 24; 5 rules: 12 drawn) against reference conjunction",
      "Exploration: cast-free schemas are validated in every permutation of their rule list; verdict, failure sum, tested count/fraction, stable shortest-path-first order, the multiset of (rule, failing path) and the textual report (always str, names every failing path) are compared with the reference for each permutation.",
-     TRUST, "DESIGN.md 3/C06")
+     TRUST + ACTIVE, "DESIGN.md 3/C06")
 prop("C07", "PBT/fuzzing for crash-freedom: hostile documents x full callable set x casts, exceptions bucketed by (type, innermost valida frame)",
      "Exploration: schemas over all callables (well-typed arguments) with and without casts on hostile documents; Schema.validate and Rule.test must return result objects; any escaping exception is a violation bucketed by root cause so the search continues behind known ones.",
-     TRUST, "DESIGN.md 3/C07")
+     TRUST + ACTIVE, "DESIGN.md 3/C07")
 
 prop("C08", "PBT over generated call histories (model-based: program-as-data and a Hypothesis RuleBasedStateMachine over one step interpreter): before/after snapshots, object-graph fingerprints, harness-side attribute-write tracer, differential against freshly built objects",
      "Exploration: histories of filter/get/test/validate calls sharing schema, rule, condition, path and document objects; after every call the documents are type-exactly unchanged and un-aliased, every shared object's fingerprint is unchanged, the write tracer saw no attribute write to a pre-existing object, and the result equals the same call on fresh objects and the first time it was made. Thread schedules are covered by the no-shared-write argument; a threaded stress run in the thorough tier is corroboration only.",
      TRUST + " Interleavings are sequential; schedules are not enumerated.", "DESIGN.md 3/C08")
 prop("C09", "PBT, exhaustive over spec-expressible leaf shapes x generated spellings; differential spec-built vs DSL-built (== and behaviour) plus reference model",
      "Exploration: every spec-expressible leaf shape with generated arguments, argument shapes, spellings (case, aliases, type names), nesting in and/or/xor lists, data-path arguments and escaped literals; from_spec(spec) must equal the DSL object (both directions) and filter identically (also vs the reference).",
-     TRUST, "DESIGN.md 3/C09")
+     TRUST + ACTIVE, "DESIGN.md 3/C09")
 prop("C10", "PBT: generated spec spellings for parts, paths, path strings, rules and YAML text; differential parsed vs API-built (== and behaviour vs reference)",
      "Exploration: part specs (long/shorthand forms, labels, default type), path specs with suffixes in either order, delimiter strings with numeric tokens, rule specs with casts and every doc shape, and YAML text (block/flow, via text and via file) must parse to objects equal to the API-built ones, with the doc normal form, and behave like the reference on probe documents.",
      TRUST + " ruamel.yaml is trusted for the YAML pre-check.", "DESIGN.md 3/C10")
 prop("C11", "PBT round trip (to_json_like -> real JSON text -> from_json_like), exhaustive over the meaningful DSL's leaf shapes; re-serialisation fixed point",
      "Exploration: every leaf shape of the meaningful DSL with JSON-representable, type, data-path and path-looking-literal arguments, nested to depth 4: the JSON-like form must survive json.dumps/loads type-exactly, rebuild to an equal condition that filters identically (also vs the reference), and serialise to the same data again.",
-     TRUST, "DESIGN.md 3/C11")
+     TRUST + ACTIVE, "DESIGN.md 3/C11")
 prop("C12", "PBT round trip of path part specs through real JSON; behavioural comparison with original and reference walk; refusal accepted",
      "Exploration: paths built through the API, from part specs and from delimiter strings (conditioned, combined, labelled parts): to_part_specs either raises or yields specs that survive JSON and rebuild a path selecting the same nodes and concrete paths as the original and as the reference, equal to the original when that was spec-built, labels kept.",
-     TRUST, "DESIGN.md 3/C12")
+     TRUST + ACTIVE, "DESIGN.md 3/C12")
 prop("C13", "PBT round trip of rules and schemas through real JSON text, casts included; behaviour vs original and reference on hostile documents",
      "Exploration: schemas in the C11/C12 fragment with and without casts: json.dumps of the JSON-like form must succeed, the rebuilt schema/rule must equal the original and give the same validity, failures and exact cast data as the original and the reference.",
-     TRUST, "DESIGN.md 3/C13")
+     TRUST + ACTIVE, "DESIGN.md 3/C13")
 prop("C14", "PBT over derived term pairs (rebuilt / commuted / one atom changed): equivalence-relation laws and 'equal implies same behaviour' (behaviour observed on the library, observability judged by the reference)",
      "Exploration: for terms of every class, rebuilt and commuted copies must compare equal; reflexivity, symmetry and transitivity are checked over all pairs/triples of {x, rebuilt, commuted, atom-changed, commuted-rebuilt}; whenever two objects compare equal they must behave identically on probe documents. Atom changes are made observable by guiding them with the document.",
-     TRUST, "DESIGN.md 3/C14")
+     TRUST + ACTIVE, "DESIGN.md 3/C14")
 prop("C15", "PBT with cast-directed generation against a reference cast model; aliasing and input-snapshot checks",
      "Exploration: schemas with str->bool / str->int casts over every path shape on documents rich in castable and uncastable strings; cast_data must be exactly the input with the reference replacements, verdicts judged on the copy, input unchanged and not aliased, stand-alone Rule.test likewise.",
-     TRUST, "DESIGN.md 3/C15")
+     TRUST + ACTIVE, "DESIGN.md 3/C15")
 prop("C16", "PBT over parse histories of one spec structure (repeated parses through all entry points, sub-structure parses); type- and order-exact snapshots",
      "Exploration: well-formed specs of every class in every spelling are parsed 2-6 times (and their sub-structures in between); the caller's structure must stay type-exactly unchanged and every re-parse must equal and behave like the first.",
-     TRUST, "DESIGN.md 3/C16")
+     TRUST + ACTIVE, "DESIGN.md 3/C16")
 
 prop("C17", "PBT, metamorphic (path argument vs resolved literal) plus reference model; document-guided cross-references; spec and escaped spellings",
      "Exploration: rules whose conditions have data-path arguments in every argument position (with modifiers, absent references, via DataPath objects and via specs) must give the same verdict and failures as the same rule with the argument replaced by the literal the reference resolves, and both must equal the reference rule test; escaped '\\path' literals are compared literally.",
-     TRUST, "DESIGN.md 3/C17")
+     TRUST + ACTIVE, "DESIGN.md 3/C17")
 prop("C18", "PBT over generated add_schema/validate histories (model-based: program-as-data and a Hypothesis RuleBasedStateMachine over one step interpreter): expected rule lists built from part objects, reference validation, fingerprints of T, metamorphic T-at-root cross-check",
      "Exploration: histories adding the same T under different roots into the same and into different S, with validations in between; after every step S.rules equals the model's expected list, S validates like the reference over the expected rule terms, and every T is unchanged (fingerprint, equality with a fresh T, behaviour).",
-     TRUST, "DESIGN.md 3/C18")
+     TRUST + ACTIVE, "DESIGN.md 3/C18")
 prop("C19", "fault injection from an enumerated catalogue of definite spec errors (must be rejected with a spec error) + structural mutation fuzzing of well-formed specs (must be accepted or cleanly rejected); exception-type oracle bucketed by frame",
      "Exploration: every class of the catalogue of definite errors is enumerated and injected into generated well-formed specs at every nesting position: the parser must raise a Malformed* error, TypeError, ValueError or KeyError(missing field) and never accept; arbitrary 1-4 step structural mutations must be accepted or rejected with a listed type, never with AttributeError / IndexError / StopIteration / RuntimeError / RecursionError.",
      TRUST + " Level fault_enumeration would also fit tier A; exploration is claimed for the whole check.", "DESIGN.md 3/C19")
